@@ -134,10 +134,14 @@ def _limits():
     resource.setrlimit(resource.RLIMIT_AS, (MEM_BYTES, MEM_BYTES))
 
 
-def _run(cmd, timeout, log):
+def _run(cmd, timeout, log, mem=None):
     t0 = time.time()
+
+    def lim():
+        m = mem or MEM_BYTES
+        resource.setrlimit(resource.RLIMIT_AS, (m, m))
     try:
-        p = subprocess.run(cmd, capture_output=True, text=True, timeout=timeout, preexec_fn=_limits)
+        p = subprocess.run(cmd, capture_output=True, text=True, timeout=timeout, preexec_fn=lim)
         return p.returncode, p.stdout, p.stderr, time.time() - t0
     except subprocess.TimeoutExpired as e:
         return -9, (e.stdout or b'').decode() if isinstance(e.stdout, bytes) else (e.stdout or ''), 'TIMEOUT after %ds' % timeout, time.time() - t0
@@ -202,7 +206,7 @@ def run_proof(built, proof, workdir, extra_defs=(), trace=False):
     cb += list(proof.get('flags', []))
     if trace:
         cb += ['--trace']
-    rc, so, se, dt = _run(cb, proof.get('timeout', TIMEOUT_S), None)
+    rc, so, se, dt = _run(cb, proof.get('timeout', TIMEOUT_S), None, mem=(proof['mem_gb'] << 30) if proof.get('mem_gb') else None)
     res['cmds'].append(' '.join(cb))
     res['seconds'] += dt
     res['solver_s'] = dt
